@@ -17,7 +17,8 @@ REQUIRED_THEOREMS = ["types_unique", "params_unique", "containers_unique", "dupl
                      "popFold_spec", "inheritors_exact", "basedOn_nodup",
                      "dangling_type_ref_is_load_failure", "dangling_base_is_load_failure",
                      "dangling_parameter_entry_is_load_failure", "unparsable_container_rejected_doc",
-                     "container_set_failure_is_load_failure"]
+                     "container_set_failure_is_load_failure", "duplicate_parameter_names_rejected",
+                     "duplicate_type_names_rejected", "duplicate_names_are_load_failures"]
 RULE = ("requests `load <prefix> <nsmap> <root> <tree>`: generated documents in the supported subset and all single-point "
         "corruptions of them (an EntryList / parameterTypeRef / BaseContainer / ContainerRefEntry reference renamed to an "
         "undefined name, a type / parameter / container duplicated with or without a change, a definition deleted, a base "
